@@ -140,7 +140,7 @@ def _free_names(fn_node) -> set[str]:
 def rule_closure(prog, rep):
     rep.rule("C14.closure", "no parameter-dependent array is captured in the closure of a function stored in a model "
                             "(function fields are static: a captured array is neither a pytree leaf nor serialised, "
-                            "and does not follow later updates of the parameters it was computed from)", minimum=3)
+                            "and does not follow later updates of the parameters it was computed from)", minimum=2)
     n = 0
     for c in prog.classes.values():
         if "__init__" not in c.methods:
